@@ -97,8 +97,16 @@ def _sympath():
 
 
 def _symx_call(obj, name, *args, **kw):
+    if name == "join" and isinstance(obj, str) and len(args) == 1 and type(args[0]) not in (list, tuple):
+        args = (list(args[0]),)       # a generator must be materialised before we can see whether it yields proxies
     if not _any_sym(obj, args, kw):
         return getattr(obj, name)(*args, **kw)
+    if name == "get" and isinstance(obj, dict) and args and isinstance(args[0], SStr):
+        # dict.get with a symbolic string key: equality with one of the (string) keys, else the default
+        for k_ in obj:
+            if isinstance(k_, str) and truth(_s.f_eq(k_, args[0])):
+                return obj[k_]
+        return args[1] if len(args) > 1 else kw.get("default")
     STATS["sym_calls"] += 1
     if obj is str:
         obj, args = args[0], args[1:]
